@@ -2,6 +2,7 @@ import RbV.Ref.MyersHit
 import RbV.Lemmas.TracebackSound
 import RbV.Lemmas.TracebackRing
 import RbV.Lemmas.TracebackScan
+import RbV.Lemmas.TracebackLongSound
 /-!
 # C10 — Myers traceback yields valid alignments
 
@@ -59,8 +60,8 @@ theorem checkHitRow_eq (eqv : Nat → Nat → Bool) (p t : List Nat) (k : Nat) (
 start and a path that the acceptance test accepts: the path consumes exactly the pattern and `t[start..stop]`, labels
 Match/Subst correctly and has exactly `D[stop−1]` non-match operations.  (The reconstruction of the three neighbouring
 values from the stored `Pv/Mv` words — `adjust_dist`, `adjust_by_mask`, the ring buffer — is the subject of the phase-2
-theorems below for the single-word version; for the block-based version it stays sampled.  The driver compares the
-model's prediction with every path the implementation returns: tag `tb-model-same`.) -/
+theorems below for the single-word version and of the phase-3 theorems for the block-based version.  The driver compares
+the model's prediction with every path the implementation returns: tag `tb-model-same`.) -/
 theorem traceback_rule_sound (eqv : Nat → Nat → Bool) (p t : List Nat) (k stop : Nat) (h1 : 1 ≤ stop)
     (hs : stop ≤ t.length) (d : Nat) (hd : (lastRow (unitW eqv) p t)[stop - 1]? = some d) (hk : d ≤ k) :
     checkHit eqv p t k ⟨(RbV.Model.MyersTraceback.traceback (unitW eqv) p t stop).1, stop, d,
@@ -228,6 +229,169 @@ theorem scan_is_model (w : Nat) (eqv : Nat → Nat → Bool) (p : List Nat) (dma
       ((List.range (t.length + 1)).filter want).map (fun c => (c, tracebackStore w eqv p dmax N old t c c)) :=
   scanStore_eq w eqv p dmax N old t want
 
+/-! ## Phase 3: the stored-state traceback of the block-based version
+
+`Model.MyersTracebackLong` mirrors `long.rs: LongStatesHandler::{init, set_max_state, add_state}` and
+`LongTracebackHandler::{new, move_up, move_up_left, move_to_left, move_left_down_if_better, finished}` (the loop is the same
+`_traceback_at`): a column of the states vector has `nb = ⌈m / w⌉` slots; `add_state` copies the blocks the band-limited
+search (`States::step`, C09 model `MyersLong.stepStates`) has computed, puts the sentinel block (`dist = usize::MAX`,
+`pv = mv = 0`) below them and leaves the slots further down as they were (stale); the handler keeps the index of the
+block under the cursor of the current and of the left column and switches blocks in `move_up` / `move_up_left`.
+`usize` distances: `Nat`, `wrapping_add` in the Subst test and the wrap-around of `adjust_by_mask` modelled with
+`umax = 2^64 − 1`.  Proof route: C09's band invariant (`MyersLong.Band`: the computed blocks hold a pseudo-column ≥ the true
+column, exact wherever the true value is ≤ k, every row below them is > k) holds for every stored column
+(`colfacts_concrete`); the cursor of a hit's walk stays in cells of value ≤ k (values never increase along the walk), its
+diagonal neighbour is ≤ k as well (diagonal monotonicity), so both cached blocks are computed blocks holding exact values,
+the `pv`/`mv` bits tested lie between an exact cell ≤ k and its neighbour and tell the truth, and the slot
+`left_block_pos + 1` read by `move_left_down_if_better` is a computed block or the sentinel (whose `mv = 0` correctly says
+"no Del"), never a stale slot. -/
+
+open RbV.Model.MyersTraceback RbV.Model.MyersTracebackLong RbV.Model.MyersLong RbV.Model.Ukkonen in
+/-- **[C] the block-based handler reads true cells along the walk of a hit.**  Take the columns the block-based search
+with threshold `k` stores for the text `t` (`colSeq … s` = the `nb` slots of sequence number `s` as `add_state` left them:
+computed blocks, sentinel, stale slots) and run `_traceback_at` at an end `stop` whose distance is `≤ k`:
+`init_traceback`, `move_up_left(true)`, then `n` passes through the loop body.  The handler is then finished
+(`pos_bitvec = 0 ∧ block_pos = 0`) or its cursor is at a cell (row `i + 1`, column `j`) of the Sellers matrix and
+* the cell has a value `≤ k`; `block_pos` is the block of row `i + 1` and `pos_bitvec` its bit;
+* `block.dist` is the value of that cell, `left_block.dist` the value of the diagonal cell (`j ≥ 1`);
+* the three tests of the loop body are the comparisons of the matrix rule: `left.dist.wrapping_add(1) == block.dist` ⇔
+  diagonal + 1 = current (and `j ≥ 1`), `block.pv & pos ≠ 0` ⇔ upper + 1 = current, `move_left_down_if_better()` ⇔
+  left + 1 = diagonal (and `j ≥ 1`) — whether the left cursor is inside a block or at its lower boundary, where the
+  method reads the first bit of the next slot of the left column;
+* it has drawn `stop − j + 2` columns from the iterator.
+Every width `w ≥ 2`, pattern `m ≥ 1` with `m + 2w + 2 < 2^64`, equivalence, text, `k`, vector size `N ≥ 2`, old contents. -/
+theorem long_handler_reads_true_cells (w : Nat) (eqv : Nat → Nat → Bool) (p t : List Nat) (k N : Nat)
+    (old : List (RbV.Model.MyersSimple.St w)) (stop n : Nat)
+    (hw : 2 ≤ w) (hm1 : 1 ≤ p.length) (hsmall : p.length + 2 * w + 2 ≤ umax) (hN : 2 ≤ N)
+    (hold : old.length = N * (blocksOf w p).length) (hs : stop ≤ t.length)
+    (hhit : cell (unitW eqv) p (t.take stop) p.length ≤ k) :
+    ((LHandler.after (blocksOf w p).length p.length (fun i => colSeq w eqv p k N old t (stop + 1 - i)) n).pos = 0#w ∧
+      (LHandler.after (blocksOf w p).length p.length (fun i => colSeq w eqv p k N old t (stop + 1 - i)) n).blockPos = 0) ∨
+    ∃ i j, i < p.length ∧ j ≤ stop ∧
+      (LHandler.after (blocksOf w p).length p.length (fun i => colSeq w eqv p k N old t (stop + 1 - i)) n).taken =
+        stop - j + 2 ∧
+      (fun (h : LHandler w) =>
+        h.blockPos * w ≤ i ∧ i < h.blockPos * w + w ∧ h.pos = BitVec.twoPow w (i - h.blockPos * w) ∧
+        cell (unitW eqv) p (t.take j) (i + 1) ≤ k ∧
+        h.block.dist = cell (unitW eqv) p (t.take j) (i + 1) ∧
+        (1 ≤ j → h.leftBlock.dist = cell (unitW eqv) p (t.take (j - 1)) i) ∧
+        (((h.leftBlock.dist + 1) % (umax + 1) = h.block.dist) ↔
+          (1 ≤ j ∧ cell (unitW eqv) p (t.take (j - 1)) i + 1 = cell (unitW eqv) p (t.take j) (i + 1))) ∧
+        (((h.block.pv &&& h.pos) != 0#w) =
+          decide (cell (unitW eqv) p (t.take j) i + 1 = cell (unitW eqv) p (t.take j) (i + 1))) ∧
+        (h.moveLeftDownIfBetter.1 =
+          decide (1 ≤ j ∧ cell (unitW eqv) p (t.take (j - 1)) (i + 1) + 1 = cell (unitW eqv) p (t.take (j - 1)) i)))
+      (LHandler.after (blocksOf w p).length p.length (fun i => colSeq w eqv p k N old t (stop + 1 - i)) n) :=
+  after_cellsL w eqv p k N old t hw hm1 hsmall hN hold stop n hs hhit
+
+open RbV.Model.MyersTraceback RbV.Model.MyersTracebackLong RbV.Model.MyersLong in
+/-- **[C] the stored-state traceback of the block-based version is sound (eager API).**  `tracebackStoreL` = search `stop`
+symbols with the band-limited `States::step`, `add_state` of every column into the ring of `N = m + min(k, m) + 2` columns
+of `nb` slots (old contents arbitrary: stale columns, stale slots below the sentinel), then `_traceback_at` at the current
+column with `LongTracebackHandler`.  For every hit (distance `≤ k`; by `C09.myers_long_eq` exactly the ends the
+block-based search reports) its result — start, distance, path — is the prediction of the matrix-level rule
+(`Model.MyersTraceback.traceback`, the rule the single-word theorem `traceback_model_sound` is stated against) and
+therefore an accepted hit (`checkHit`).  Every width `w ≥ 2`, pattern length `m ≥ 1` (any number of blocks;
+`m + 2w + 2 < 2^64`), equivalence, text, `k`. -/
+theorem traceback_long_model_sound (w : Nat) (eqv : Nat → Nat → Bool) (p t : List Nat) (k stop : Nat)
+    (old : List (RbV.Model.MyersSimple.St w)) (hw : 2 ≤ w) (hm1 : 1 ≤ p.length) (hsmall : p.length + 2 * w + 2 ≤ umax)
+    (hold : old.length = (p.length + min k p.length + 2) * (blocksOf w p).length) (h1 : 1 ≤ stop) (hs : stop ≤ t.length)
+    (d : Nat) (hdv : (lastRow (unitW eqv) p t)[stop - 1]? = some d) (hk : d ≤ k) :
+    tracebackStoreL w eqv p k (p.length + min k p.length + 2) old t stop =
+      ((traceback (unitW eqv) p t stop).1, d, (traceback (unitW eqv) p t stop).2) ∧
+    checkHit eqv p t k ⟨(tracebackStoreL w eqv p k (p.length + min k p.length + 2) old t stop).1, stop,
+      (tracebackStoreL w eqv p k (p.length + min k p.length + 2) old t stop).2.1,
+      (tracebackStoreL w eqv p k (p.length + min k p.length + 2) old t stop).2.2⟩ = true := by
+  have hrow := RbV.Model.Ukkonen.lastRow_cell (unitW eqv) p t (stop - 1) (by omega)
+  have e : stop - 1 + 1 = stop := by omega
+  rw [e, hdv] at hrow
+  injection hrow with hrow
+  have hspan := traceback_span eqv p t stop hs
+  rw [← hrow] at hspan
+  have heq := tracebackStoreLAt_eq w eqv p k (p.length + min k p.length + 2) old t hw hm1 hsmall (by omega) hold stop stop
+    hs (Nat.le_refl _) (by rw [← hrow]; exact hk) (by omega)
+  rw [← hrow] at heq
+  have heq' : tracebackStoreL w eqv p k (p.length + min k p.length + 2) old t stop =
+      ((traceback (unitW eqv) p t stop).1, d, (traceback (unitW eqv) p t stop).2) := heq
+  refine ⟨heq', ?_⟩
+  rw [heq']
+  exact traceback_rule_sound eqv p t k stop h1 hs d hdv hk
+
+open RbV.Model.MyersTraceback RbV.Model.MyersTracebackLong RbV.Model.MyersLong in
+/-- **[C] … for every end the block-based search reports.**  The same with the hypothesis in the form "the pair
+`(stop − 1, d)` is in the list `find_all_end` returns" (`MyersLong.findAllEnd`, proved equal to the Sellers hits in C09). -/
+theorem traceback_long_sound_reported (w : Nat) (eqv : Nat → Nat → Bool) (p t : List Nat) (k e d : Nat)
+    (old : List (RbV.Model.MyersSimple.St w)) (hw : 2 ≤ w) (hm1 : 1 ≤ p.length) (hsmall : p.length + 2 * w + 2 ≤ umax)
+    (hold : old.length = (p.length + min k p.length + 2) * (blocksOf w p).length)
+    (hrep : (e, d) ∈ findAllEnd w eqv p t k) :
+    tracebackStoreL w eqv p k (p.length + min k p.length + 2) old t (e + 1) =
+      ((traceback (unitW eqv) p t (e + 1)).1, d, (traceback (unitW eqv) p t (e + 1)).2) ∧
+    checkHit eqv p t k ⟨(tracebackStoreL w eqv p k (p.length + min k p.length + 2) old t (e + 1)).1, e + 1,
+      (tracebackStoreL w eqv p k (p.length + min k p.length + 2) old t (e + 1)).2.1,
+      (tracebackStoreL w eqv p k (p.length + min k p.length + 2) old t (e + 1)).2.2⟩ = true := by
+  rw [findAllEnd_eq_hits w eqv p t k (by omega) hm1] at hrep
+  obtain ⟨_, h2, h3⟩ := mem_hitsFrom k _ 0 e d hrep
+  simp only [Nat.sub_zero] at h2
+  have hlen : e < (lastRow (unitW eqv) p t).length := by
+    apply Nat.lt_of_not_le
+    intro hle
+    rw [List.getElem?_eq_none hle] at h2
+    cases h2
+  rw [lastRow_length] at hlen
+  exact traceback_long_model_sound w eqv p t k (e + 1) old hw hm1 hsmall hold (by omega) (by omega) d
+    (by simpa using h2) h3
+
+open RbV.Model.MyersTraceback RbV.Model.MyersTracebackLong RbV.Model.MyersLong in
+/-- **[C] … and for the lazy API at every hit already searched.**  `find_all_lazy` allocates `n + 2` columns; after `c`
+symbols have been consumed, `_traceback_at` for a hit end `stop − 1 < c` (distance `≤ k`; the block-based version documents
+that it answers only for hits) returns the prediction of the matrix-level rule. -/
+theorem traceback_long_model_sound_lazy (w : Nat) (eqv : Nat → Nat → Bool) (p t : List Nat) (k c stop : Nat)
+    (old : List (RbV.Model.MyersSimple.St w)) (hw : 2 ≤ w) (hm1 : 1 ≤ p.length) (hsmall : p.length + 2 * w + 2 ≤ umax)
+    (hold : old.length = (t.length + 2) * (blocksOf w p).length) (hc : c ≤ t.length) (h1 : 1 ≤ stop) (hs : stop ≤ c)
+    (d : Nat) (hdv : (lastRow (unitW eqv) p t)[stop - 1]? = some d) (hk : d ≤ k) :
+    tracebackStoreLAt w eqv p k (t.length + 2) old t c stop =
+      ((traceback (unitW eqv) p t stop).1, d, (traceback (unitW eqv) p t stop).2) ∧
+    checkHit eqv p t k ⟨(tracebackStoreLAt w eqv p k (t.length + 2) old t c stop).1, stop,
+      (tracebackStoreLAt w eqv p k (t.length + 2) old t c stop).2.1,
+      (tracebackStoreLAt w eqv p k (t.length + 2) old t c stop).2.2⟩ = true := by
+  have hrow := RbV.Model.Ukkonen.lastRow_cell (unitW eqv) p t (stop - 1) (by omega)
+  have e : stop - 1 + 1 = stop := by omega
+  rw [e, hdv] at hrow
+  injection hrow with hrow
+  have heq := tracebackStoreLAt_eq w eqv p k (t.length + 2) old t hw hm1 hsmall (by omega) hold c stop hc hs
+    (by rw [← hrow]; exact hk) (by omega)
+  rw [← hrow] at heq
+  refine ⟨heq, ?_⟩
+  rw [heq]
+  exact traceback_rule_sound eqv p t k stop h1 (by omega) d hdv hk
+
+open RbV.Model.MyersTraceback RbV.Model.MyersTracebackLong RbV.Model.MyersLong in
+/-- **[C] the block-based and the single-word implementation produce identical alignments.**  For a pattern that fits one
+word of the single-word matcher (`m ≤ ws`; the block-based matcher may use any word width `w`, so the pattern may span
+several of its blocks) and every hit, the two stored-state pipelines — `tracebackStore` (`simple.rs`, proved in
+`traceback_model_sound`) and `tracebackStoreL` (`long.rs`) — return the same start, distance and path, whatever their
+states vectors contained before.  For longer patterns there is no single-word object; `traceback_long_model_sound` states
+the result against the matrix-level rule that the single-word theorem is stated against. -/
+theorem traceback_long_eq_simple (w ws : Nat) (eqv : Nat → Nat → Bool) (p t : List Nat) (dmax k stop : Nat)
+    (old : List (RbV.Model.MyersSimple.St w)) (olds : List (RbV.Model.MyersSimple.St ws))
+    (hw : 2 ≤ w) (hm1 : 1 ≤ p.length) (hsmall : p.length + 2 * w + 2 ≤ umax) (hws : p.length ≤ ws) (hd : p.length < dmax)
+    (hold : old.length = (p.length + min k p.length + 2) * (blocksOf w p).length)
+    (holds : olds.length = p.length + min k p.length + 2) (h1 : 1 ≤ stop) (hs : stop ≤ t.length)
+    (d : Nat) (hdv : (lastRow (unitW eqv) p t)[stop - 1]? = some d) (hk : d ≤ k) :
+    tracebackStoreL w eqv p k (p.length + min k p.length + 2) old t stop =
+      tracebackStore ws eqv p dmax (p.length + min k p.length + 2) olds t stop stop := by
+  rw [(traceback_long_model_sound w eqv p t k stop old hw hm1 hsmall hold h1 hs d hdv hk).1,
+    (traceback_model_sound ws eqv p t dmax k stop olds hm1 hws hd holds h1 hs d hdv hk).1]
+
+open RbV.Model.MyersTracebackLong in
+/-- the single pass the compiled driver runs for a block-based object (`scanStoreL`, tag `tb-block-model-same`) reports
+for every wanted end `c` exactly `tracebackStoreL … t c`, the function of `traceback_long_model_sound` -/
+theorem scanL_is_model (w : Nat) (eqv : Nat → Nat → Bool) (p : List Nat) (k N : Nat)
+    (old : List (RbV.Model.MyersSimple.St w)) (t : List Nat) (want : Nat → Bool) :
+    scanStoreL w eqv p k N old t want =
+      ((List.range (t.length + 1)).filter want).map (fun c => (c, tracebackStoreL w eqv p k N old t c)) :=
+  scanStoreL_eq w eqv p k N old t want
+
 -- non-vacuity
 example : checkHit eqSym [1, 2, 3] [9, 1, 3, 9] 1 ⟨1, 3, 1, [.mat, .ins, .mat]⟩ = true := by decide
 example : checkHit eqSym [1, 2, 3] [9, 1, 3, 9] 1 ⟨1, 3, 1, [.mat, .sub, .mat]⟩ = false := by decide
@@ -261,5 +425,58 @@ example : (tracebackStore 8 eqSym [1, 2, 3, 4, 5, 6, 7, 8] 255 10 (List.replicat
     (traceback (unitW eqSym) [1, 2, 3, 4, 5, 6, 7, 8] [7, 7, 1, 2, 3, 4, 9, 9, 9, 5, 6, 7, 8] 13).2 := by decide
 open RbV.Model.MyersTraceback in
 example : availableAt 12 5 4 = true ∧ availableAt 12 5 5 = false ∧ availableAt 12 0 0 = false := by decide
+
+-- non-vacuity (phase 3): block-based version, words of 4 bits.  `oldL n` = stale contents of `states_store`
+open RbV.Model.MyersTracebackLong in
+def oldL (n : Nat) : List (RbV.Model.MyersSimple.St 4) := List.replicate n ⟨0x5#4, 0x3#4, 7⟩
+-- two blocks (6 symbols), k = 1: only the first block is computed at the start (`States::new`), the second is switched
+-- on by the band logic; ring of 6 + 1 + 2 = 9 columns of 2 slots
+set_option maxRecDepth 20000 in
+open RbV.Model.MyersTracebackLong in
+example : tracebackStoreL 4 eqSym [1, 2, 3, 4, 5, 6] 1 9 (oldL 18) [9, 1, 2, 3, 5, 6, 9] 6 =
+    (1, 1, [.mat, .mat, .mat, .ins, .mat, .mat]) := by decide
+-- the hypotheses of `traceback_long_model_sound` are satisfiable: the same value through the theorem
+open RbV.Model.MyersTracebackLong RbV.Model.MyersTraceback in
+example : tracebackStoreL 4 eqSym [1, 2, 3, 4, 5, 6] 1 9 (oldL 18) [9, 1, 2, 3, 5, 6, 9] 6 =
+    (1, 1, [.mat, .mat, .mat, .ins, .mat, .mat]) :=
+  (traceback_long_model_sound 4 eqSym [1, 2, 3, 4, 5, 6] [9, 1, 2, 3, 5, 6, 9] 1 6 (oldL 18)
+    (by decide) (by decide) (by decide) (by decide) (by decide) (by decide) 1 (by decide) (by decide)).1.trans (by decide)
+-- … and of `traceback_long_sound_reported`: (5, 1) is what the block-based `find_all_end` reports
+example : (5, 1) ∈ RbV.Model.MyersLong.findAllEnd 4 eqSym [1, 2, 3, 4, 5, 6] [9, 1, 2, 3, 5, 6, 9] 1 := by decide
+-- … and of `traceback_long_eq_simple`: the same pattern in one 8-bit word
+open RbV.Model.MyersTracebackLong RbV.Model.MyersTraceback in
+example : tracebackStoreL 4 eqSym [1, 2, 3, 4, 5, 6] 1 9 (oldL 18) [9, 1, 2, 3, 5, 6, 9] 6 =
+    tracebackStore 8 eqSym [1, 2, 3, 4, 5, 6] 255 9 (List.replicate 9 ⟨0x5a#8, 0x33#8, 7⟩) [9, 1, 2, 3, 5, 6, 9] 6 6 :=
+  traceback_long_eq_simple 4 8 eqSym [1, 2, 3, 4, 5, 6] [9, 1, 2, 3, 5, 6, 9] 255 1 6 (oldL 18) _
+    (by decide) (by decide) (by decide) (by decide) (by decide) (by decide) (by decide) (by decide) (by decide) 1
+    (by decide) (by decide)
+-- the ring (9 columns) has wrapped around: 17 columns stored
+set_option maxRecDepth 40000 in
+open RbV.Model.MyersTracebackLong in
+example : tracebackStoreL 4 eqSym [1, 2, 3, 4, 5, 6] 1 9 (oldL 18) [9, 9, 9, 9, 9, 9, 9, 9, 9, 9, 1, 2, 3, 5, 6] 15 =
+    (10, 1, [.mat, .mat, .mat, .ins, .mat, .mat]) := by decide
+-- three blocks (9 symbols), k = 2, a path with Ins and Del that crosses both block boundaries
+set_option maxRecDepth 40000 in
+open RbV.Model.MyersTracebackLong in
+example : tracebackStoreL 4 eqSym [1, 2, 3, 4, 5, 6, 7, 8, 9] 2 13 (oldL 39) [7, 1, 2, 4, 5, 6, 6, 7, 8, 9, 1] 10 =
+    (1, 2, [.mat, .mat, .ins, .mat, .mat, .mat, .del, .mat, .mat, .mat]) := by decide
+-- lazy store (n + 2 columns), traceback at the hit ending at 5 after all 8 symbols
+set_option maxRecDepth 40000 in
+open RbV.Model.MyersTracebackLong in
+example : tracebackStoreLAt 4 eqSym [1, 2, 3, 4, 5, 6] 1 10 (oldL 20) [9, 1, 2, 3, 5, 6, 9, 9] 8 6 =
+    (1, 1, [.mat, .mat, .mat, .ins, .mat, .mat]) := by decide
+-- the handler after two passes (Match, Match): cursor at row 4 = last bit (`pos = 0b1000`) of block 0 of column 4,
+-- `block.dist = D[4][4] = 1`, left cursor in block 0, `left_block.dist = D[3][3] = 1`, four columns drawn
+set_option maxRecDepth 40000 in
+open RbV.Model.MyersTracebackLong in
+example : (fun h : LHandler 4 => (h.blockPos, h.pos, h.block.dist, h.leftBlockPos, h.leftBlock.dist, h.taken))
+    (LHandler.after 2 6 (fun i => colSeq 4 eqSym [1, 2, 3, 4, 5, 6] 1 9 (oldL 18) [9, 1, 2, 3, 5, 6, 9] (6 + 1 - i)) 2) =
+    (0, 0x8#4, 1, 0, 1, 4) := by decide
+-- an end that is not a hit (k = 0, D = 1): the last block of that column was never computed, the handler starts from the
+-- sentinel block and the result is not the rule's.  `find_all` never asks for it; the hypothesis `d ≤ k` is needed.
+set_option maxRecDepth 40000 in
+open RbV.Model.MyersTracebackLong RbV.Model.MyersTraceback in
+example : (tracebackStoreL 4 eqSym [1, 2, 3, 4, 5, 6] 0 8 (oldL 16) [9, 1, 2, 3, 5, 6, 9] 5).2.2 ≠
+    (traceback (unitW eqSym) [1, 2, 3, 4, 5, 6] [9, 1, 2, 3, 5, 6, 9] 5).2 := by decide
 
 end RbV.Thm.C10
